@@ -51,3 +51,12 @@ Theorem C11_packet_header_uses_the_same_decoding : forall p,
   then Val (Gen.Funcs.f_DataIdentifier_SetUint16 0 0 0 (Z.of_N (be16 (nthb p 0) (nthb p 1))))
   else Pan.
 Proof. exact packet_identifier_agrees. Qed.
+
+(* through the emulator: MarshalMessage as REGENERATED from xsensemulator/emulator.go hands the value's encoder the
+   identifier of the last configured setting of the requested type, every component unchanged (or refuses when there is
+   none) - so an identifier travels configuration -> packet header through the functions above only *)
+Require Import Base.GoBytes Model.Emulator Gen.EmuFns Tie.EmuAgree.
+Theorem C11_emulator_passes_the_configured_identifier : forall md dt st, conf_ok st ->
+  g_Emulator_MarshalMessage md dt st = Val (marshal_result md (last_match dt (econf (absE st true))), st).
+Proof. intros md dt st H. exact (proj1 (emu_marshal_agrees md dt st true H)). Qed.
+Print Assumptions C11_emulator_passes_the_configured_identifier.
